@@ -27,12 +27,16 @@ Definition skel_act_modelled : list string :=
 Definition skel_try_inactive_modelled : list string := ["fetch_update"; "atomic::fence"].
 Definition skel_set_inactive_modelled : list string := ["active_workers.store"].
 Definition skel_is_idle_modelled : list string := ["active_workers.load"].
+(* activate_all_workers (abort / drop path, outside the model): every worker is marked active AND unparked *)
+Definition skel_act_all_modelled : list string :=
+  ["self.set_all_workers_active();forunparkerin&*self.worker_unparkers{unparker.unpark();}"].
 
 Lemma gen_skeleton_is_modelled :
   skel_worker_gen = skel_worker_modelled /\ skel_sched_gen = skel_sched_modelled /\
   skel_run_gen = skel_run_modelled /\ skel_act_relaxed_gen = skel_act_relaxed_modelled /\
   skel_act_gen = skel_act_modelled /\ skel_try_inactive_gen = skel_try_inactive_modelled /\
-  skel_set_inactive_gen = skel_set_inactive_modelled /\ skel_is_idle_gen = skel_is_idle_modelled.
+  skel_set_inactive_gen = skel_set_inactive_modelled /\ skel_is_idle_gen = skel_is_idle_modelled /\
+  skel_act_all_gen = skel_act_all_modelled.
 Proof. repeat split; reflexivity. Qed.
 
 Theorem pool_gen_idle_read_exact n ls : 1 <= n ->
